@@ -16,7 +16,15 @@ never offered.  Hence the full completeness statement is FALSE of the faithful m
                                     is a finished mask-confined run (for a margin-free environment,
                                     `eps = 0`, this is the full statement);
 * `opt_reachable_partial`           every feasible action list (canonical or not) with that slack has a
-                                    finished mask-confined episode collecting the same prize.
+                                    finished mask-confined episode collecting the same prize;
+* `Precomp` / `marginGe_of_precomp` / `marginLe_of_precomp` / `feasible_of_run_precomp`
+                                    the reset-time pre-computation `max_length − dist − 1e-6` (constant
+                                    extracted from the source) inside the model: the read-back budgets are
+                                    that formula up to a rounding error, which yields both margin bounds and
+                                    C01 without any further hypothesis on the budgets;
+* `opt_eq_margin` / `opt_sandwich` / `reachable_le_feasible`
+                                    the best prize reachable through the mask EQUALS the optimum over the
+                                    feasible tours of length ≤ L − margin, and is ≤ the optimum over ≤ L.
 
 `Canonical` removes exactly the documented pruning: the episode ends at the first return to the
 depot; the empty tour is `[0, 0]` (the code does not count a depot step at `i = 0` as a return).
@@ -211,5 +219,115 @@ example : MarginLe cexInst 67 := by
 example : ∃ s, Run env { cexInst with L := 33554560, budget := fun j => if j = 0 then 33554492 else 16777276, cbound := fun _ => 33555232 }
     (env.reset cexInst) [1, 0] s ∧ s.done = true :=
   ⟨_, (run_iff_admitted _ _ _ _ _).2 ⟨by decide, rfl⟩, by decide⟩
+
+/-! ### the reset-time pre-computation inside the model -/
+
+/-- the pre-computation also bounds the margin from above: at most `1e-6 + rho` below `L − D j 0` -/
+theorem marginLe_of_precomp (i : Inst) (U rho eps : Int) (hp : Precomp i U rho)
+    (he : U + 1000000 * rho ≤ 1000000 * eps) : MarginLe i eps := by
+  intro j h1 h2
+  have := (hp j h1 h2).1
+  simp only [budgetSpecScaled, Params.opResetMargin] at this
+  omega
+
+/-! ### what is reachable through the mask, relative to the margin -/
+
+/-- invariant: closing the tour from the current node keeps `m` of the budget, or nothing has moved -/
+def CanReturnM (i : Inst) (m : Int) (s : State) : Prop :=
+  s.len + i.D s.cur 0 ≤ i.L - m ∨ (s.len = 0 ∧ s.cur = 0)
+
+theorem canReturnM_of_run (i : Inst) (m : Int) (hd : i.D 0 0 = 0) (hmg : MarginGe i m)
+    {as : List Nat} {s : State} (h : Run env i (env.reset i) as s) : CanReturnM i m s := by
+  refine inv_of_reach (Inv := CanReturnM i m) (Or.inr ⟨rfl, rfl⟩) ?_ ⟨as, h⟩
+  intro s a hinv ha hm
+  simp only [env] at ha hm
+  by_cases h0 : a = 0
+  · subst h0
+    rcases hinv with hl | ⟨h1, h2⟩
+    · left; simp only [env, step, hd]; omega
+    · right; simp [env, step, h1, h2, hd]
+  · obtain ⟨_, _, h3⟩ := mask_customer h0 hm
+    have := hmg a (by omega) (by omega)
+    left
+    simp only [env, step]
+    omega
+
+/-- every mask-confined run keeps `m` of the budget unused (if the budgets do and `m ≤ L`) -/
+theorem tourLen_le_of_run (i : Inst) (m : Int) (hd : i.D 0 0 = 0) (hmg : MarginGe i m) (hmL : m ≤ i.L)
+    {as : List Nat} {s : State} (h : Run env i (env.reset i) as s) : tourLen i as ≤ i.L - m := by
+  obtain ⟨hl, hc⟩ := len_of_run i h
+  simp only [env, reset, Int.zero_add] at hl hc
+  simp only [tourLen]
+  rw [depot_tour_eq, ← hl, ← hc]
+  rcases canReturnM_of_run i m hd hmg h with h1 | ⟨h1, h2⟩
+  · exact h1
+  · rw [h1, h2, hd]; omega
+
+/-- prizes of finished mask-confined episodes -/
+def ReachablePrize (i : Inst) (v : Int) : Prop :=
+  ∃ as s, Run env i (env.reset i) as s ∧ env.done i s = true ∧ reward i as = v
+
+/-- prizes of feasible tours that keep `m` of the budget unused -/
+def SlackPrize (i : Inst) (m : Int) (v : Int) : Prop :=
+  ∃ as, Feasible i as ∧ tourLen i as ≤ i.L - m ∧ objective i as = v
+
+/-- `v` is the maximum of the set `P` -/
+def IsMaxOf (P : Int → Prop) (v : Int) : Prop := P v ∧ ∀ w, P w → w ≤ v
+
+/-- **C05 (OP), lower half of the sandwich**: whatever a feasible tour with slack `eps` (an upper bound of
+the code's margin) collects is collected by some finished mask-confined episode. -/
+theorem reachable_of_slack (i : Inst) (eps : Int) (hd : i.D 0 0 = 0) (htri0 : TriToDepot i)
+    (htri : ∀ a b, i.D a b ≤ i.D a 0 + i.D 0 b) (hmar : MarginLe i eps) {v : Int}
+    (h : SlackPrize i eps v) : ReachablePrize i v := by
+  obtain ⟨as, hf, hs, hv⟩ := h
+  obtain ⟨as', s, hr, hdn, hrew⟩ := opt_reachable_partial i eps hd htri0 htri hmar hf hs
+  exact ⟨as', s, hr, hdn, by rw [hrew, hv]⟩
+
+/-- **C05 (OP), upper half of the sandwich**: whatever a finished mask-confined episode collects is the
+prize of a feasible tour with slack `m` (a lower bound of the code's margin). -/
+theorem slack_of_reachable (i : Inst) (m : Int) (hd : i.D 0 0 = 0) (hm0 : 0 ≤ m) (hmL : m ≤ i.L)
+    (hmg : MarginGe i m) {v : Int} (h : ReachablePrize i v) : SlackPrize i m v := by
+  obtain ⟨as, s, hr, hdn, hv⟩ := h
+  have hwf : WF i := ⟨hd, by omega, fun j h1 h2 => by have := hmg j h1 h2; omega⟩
+  exact ⟨as, feasible_of_run i hwf hr, tourLen_le_of_run i m hd hmg hmL hr,
+    by rw [← reward_eq_objective i hr hdn, hv]⟩
+
+/-- **C05 (OP), the optimum through the mask relative to the margin.**  If the budgets sit exactly `m`
+below `L − D j 0` (the code's formula without rounding, `m = 1e-6`), the prizes reachable through the
+mask are exactly the prizes of the feasible tours of length `≤ L − m`; in particular the best prize
+reachable through the mask EQUALS the optimum over those tours … -/
+theorem opt_eq_margin (i : Inst) (m : Int) (hd : i.D 0 0 = 0) (htri0 : TriToDepot i)
+    (htri : ∀ a b, i.D a b ≤ i.D a 0 + i.D 0 b) (hm0 : 0 ≤ m) (hmL : m ≤ i.L)
+    (hle : MarginLe i m) (hge : MarginGe i m) (v : Int) :
+    (ReachablePrize i v ↔ SlackPrize i m v) ∧
+    (IsMaxOf (ReachablePrize i) v ↔ IsMaxOf (SlackPrize i m) v) := by
+  have hiff : ∀ w, ReachablePrize i w ↔ SlackPrize i m w := fun w =>
+    ⟨slack_of_reachable i m hd hm0 hmL hge, reachable_of_slack i m hd htri0 htri hle⟩
+  refine ⟨hiff v, ?_⟩
+  simp only [IsMaxOf, hiff]
+
+/-- … and never exceeds the optimum over all feasible tours (length `≤ L`). -/
+theorem reachable_le_feasible (i : Inst) (m : Int) (hd : i.D 0 0 = 0) (hm0 : 0 ≤ m) (hmL : m ≤ i.L)
+    (hge : MarginGe i m) {v opt : Int} (hv : ReachablePrize i v) (hopt : IsMaxOf (SlackPrize i 0) opt) :
+    v ≤ opt := by
+  obtain ⟨as, hf, hs, ho⟩ := slack_of_reachable i m hd hm0 hmL hge hv
+  exact hopt.2 v ⟨as, hf, by omega, ho⟩
+
+/-- with rounding: the reachable optimum is sandwiched between the optima for the two margins -/
+theorem opt_sandwich (i : Inst) (mlo mhi : Int) (hd : i.D 0 0 = 0) (htri0 : TriToDepot i)
+    (htri : ∀ a b, i.D a b ≤ i.D a 0 + i.D 0 b) (hm0 : 0 ≤ mlo) (hmL : mlo ≤ i.L)
+    (hge : MarginGe i mlo) (hle : MarginLe i mhi) {v vlo vhi : Int}
+    (hv : IsMaxOf (ReachablePrize i) v) (hlo : IsMaxOf (SlackPrize i mlo) vlo)
+    (hhi : IsMaxOf (SlackPrize i mhi) vhi) : vhi ≤ v ∧ v ≤ vlo :=
+  ⟨hv.2 vhi (reachable_of_slack i mhi hd htri0 htri hle hhi.1),
+   hlo.2 v (slack_of_reachable i mlo hd hm0 hmL hge hv.1)⟩
+
+/-- Non-vacuity: on the real budgets of `cexInst` (unit 2^-26, `U = 2^26`) the pre-computation holds with a
+rounding error of one unit, hence `MarginGe 66` and `MarginLe 69`; the empty tour is always reachable. -/
+example : Precomp cexInst 67108864 1 := (precomp_iff _ _ _).mp (by decide)
+example : MarginGe cexInst 66 := marginGe_of_precomp cexInst 67108864 1 66 ((precomp_iff _ _ _).mp (by decide)) (by decide)
+example : MarginLe cexInst 69 := marginLe_of_precomp cexInst 67108864 1 69 ((precomp_iff _ _ _).mp (by decide)) (by decide)
+example : ReachablePrize cexInst 0 :=
+  ⟨[0, 0], _, (run_iff_admitted _ _ _ _ _).2 ⟨by decide, rfl⟩, by decide, by decide⟩
 
 end Rl4co.Op
